@@ -9,14 +9,52 @@ let () = iter_lines (fun line ->
     let (v1, v2) = Gen_Vertices.coq_GetVertices (z_of_string l) (z_of_string code) (z_of_string cp) in
     Printf.printf "%s %s\n" (zs v1) (zs v2)
   | ["c"; v; m] -> print_endline (zs (Gen_Ceil.coq_Ceil (z_of_string v) (z_of_string m)))
-  | l :: keep :: rest ->
+  | "S" :: _sid :: keep :: rest ->
+    (* DataColumnListStatic: members "M size:align ..." then ops "m idx.." / "r" *)
+    let keepb = (keep = "1") in
+    let rec split acc cur = function
+      | [] -> Stdlib.List.rev (Stdlib.List.rev cur :: acc)
+      | ";" :: tl -> split (Stdlib.List.rev cur :: acc) [] tl
+      | x :: tl -> split acc (x :: cur) tl in
+    let segs = Stdlib.List.filter (fun l -> l <> []) (split [] [] rest) in
+    let members = (match segs with ("M" :: ms) :: _ -> Stdlib.List.map (fun m ->
+        match String.split_on_char ':' m with
+        | [sz; al] -> { c_code = z_of_int 0; c_size = z_of_string sz; c_align = z_of_string al; c_mut = false }
+        | _ -> failwith "member") ms | _ -> []) in
+    let ops = (match segs with _ :: tl -> tl | [] -> []) in
+    let ((sz, al), rs) = Static.struct_layout members in
+    let offs = Stdlib.List.map (fun r -> r.r_off) rs in
+    let buf = Buffer.create 256 in
+    Buffer.add_string buf (Printf.sprintf "%s %s %s %s |" (zs sz) (zs al) (zs (Static.s_total keepb sz)) (zs al));
+    Stdlib.List.iter (fun o -> Buffer.add_string buf (" " ^ zs o)) offs;
+    Buffer.add_string buf " |";
+    Stdlib.List.iter (fun o -> Buffer.add_string buf (match Static.s_get_offset sz o with Some x -> " " ^ zs x | None -> " ASSERT")) offs;
+    Buffer.add_string buf " |";
+    Stdlib.List.iter (fun o -> Buffer.add_string buf (match Static.s_contains sz o with Some x -> " " ^ zs x | None -> " ASSERT")) offs;
+    let b = ref Static.s_reset in
+    Stdlib.List.iter (fun op ->
+      (match op with
+       | ["r"] -> b := Static.s_reset
+       | "m" :: idx -> b := Static.s_set_mutable !b (Stdlib.List.map (fun i -> Stdlib.List.nth offs (int_of_string i)) idx)
+       | _ -> ());
+      Buffer.add_string buf " ;";
+      for o = 0 to int_of_z sz - 1 do
+        if Static.s_is_mutable !b (z_of_int o) then Buffer.add_string buf (Printf.sprintf " %d" o)
+      done) ops;
+    Buffer.add_string buf " ; raw ok ; visit";
+    Stdlib.List.iter (fun o -> Buffer.add_string buf (" " ^ zs o)) offs;
+    print_endline (Buffer.contents buf)
+  | first :: rest0 when first = "F" || (first <> "v" && first <> "c") ->
+    let failing = (first = "F") in
+    let (l, keep, rest) = (match (if failing then rest0 else first :: rest0) with l :: keep :: rest -> (l, keep, rest) | _ -> ("4", "0", ["?bad"])) in
     let lz = z_of_string l in
     let keepb = (keep = "1") in
     (* split into ops *)
     let ops = ref [] and universe = ref [] and probes = ref [] in
     let note c = if not (Stdlib.List.mem c !universe) then universe := !universe @ [c] in
     let rec col = function
-      | t :: s :: a :: c :: tl -> ({ c_code = z_of_string c; c_size = z_of_string s; c_align = z_of_string a }, (c, int_of_string t), tl)
+      | t :: s :: a :: c :: tl -> let ti = int_of_string t in
+        ({ c_code = z_of_string c; c_size = z_of_string s; c_align = z_of_string a; c_mut = (ti >= 100) }, (c, ti mod 100), tl)
       | _ -> failwith "col"
     and go = function
       | [] -> ()
@@ -64,7 +102,12 @@ let () = iter_lines (fun line ->
           | Some o -> Buffer.add_string buf (" " ^ zs o) | None -> Buffer.add_string buf " -") !universe;
         Buffer.add_string buf " |";
         Stdlib.List.iter (fun v -> let a = s.addends v in
-          if zs a <> "0" then Buffer.add_string buf (Printf.sprintf " %s:%s" (zs v) (zs a))) verts
+          if zs a <> "0" then Buffer.add_string buf (Printf.sprintf " %s:%s" (zs v) (zs a))) verts;
+        Buffer.add_string buf (" | m " ^ zs s.mutCount);
+        if s.columns <> [] then
+          for o = 0 to int_of_z s.totalSize - 1 do
+            if is_mutable s (z_of_int o) then Buffer.add_string buf (Printf.sprintf " %d" o)
+          done
       ) !ops;
       Buffer.add_string buf " ; raw ok ; ev n:";
       let show t = Stdlib.List.iter (fun e -> match e with
@@ -77,6 +120,7 @@ let () = iter_lines (fun line ->
         Buffer.add_string buf (Printf.sprintf " | %d:" k);
         let (t, _) = RawLife.create_raw (Some (nat_of_int k)) [] !groups in show t
       done;
+      if failing then Buffer.add_string buf " ; af ok";
       print_endline (Buffer.contents buf)
     with Failure m -> print_endline ("?" ^ m))
   | _ -> print_endline "?")
